@@ -22,7 +22,7 @@ from gen_files import path_of, rand_value
 
 LEVEL = "proof"
 ANCHOR_FILES = ["nptdms/tdms.py", "nptdms/scaling.py", "nptdms/channel_data.py"]
-ASSUMPTIONS = ["dtype equality is modulo byte order (chunk reads of big-endian segments return '>i4' views of the same value type)",
+ASSUMPTIONS = ["dtype equality is NumPy's `==` for full, window, slice, index and .data reads; for data_chunks() reads it is taken modulo byte order (on the pinned tree chunk reads of big-endian segments return '>i4' views of the same value type: same values, same value type — recorded as an observation, not a finding)",
                "timestamp channels read with raw_timestamps=True are exempt from datetime64[us] and only required to be self-consistent",
                "bool raw data is not numeric: Add/Subtract on it are outside the property"]
 TRUSTED_EXTRA = ["harness/props/C14.py"]
@@ -30,9 +30,13 @@ TRUSTED_EXTRA = ["harness/props/C14.py"]
 ALL_TYPES = [1, 2, 3, 4, 5, 6, 7, 8, 9, 10, 0x19, 0x1A, 0x20, 0x21, 0x44, 0x08000c, 0x10000d]
 
 
-def same(a, b):
+def same(a, b, label=""):
+    """dtype equality as NumPy defines it; for chunk reads (the only reads that return byte-swapped views of big-endian segments on
+    the pinned tree) equality modulo byte order"""
     a, b = np.dtype(a), np.dtype(b)
-    return a == b or a.newbyteorder("=") == b.newbyteorder("=")
+    if "data_chunks" in label:
+        return a == b or a.newbyteorder("=") == b.newbyteorder("=")
+    return a == b
 
 
 def kind_of(dt):
@@ -115,7 +119,7 @@ def empty_chunk_pass(ctx, model, nptdms, stats):
                     stats["reads"] += 1
                     if not isinstance(arr, np.ndarray):
                         out.append(Violation("%s returned a %s, not an array (type %#x, %d values)" % (label, type(arr).__name__, ty, len(arr)), dict(file=d.hex(), raw_type=ty, read=label)))
-                    elif not same(arr.dtype, declared):
+                    elif not same(arr.dtype, declared, label):
                         out.append(Violation("%s has dtype %s but channel.dtype is %s (type %#x, %d values)" % (label, arr.dtype, declared, ty, len(arr)), dict(file=d.hex(), raw_type=ty, read=label)))
         if len(out) >= 3:
             break
@@ -217,7 +221,7 @@ def run(ctx):
                         if not isinstance(arr, np.ndarray):
                             violations.append(Violation("%s returned a %s, not an array (type %#x, %s)" % (label, type(arr).__name__, ty, "lazy" if lazy else "eager"), info))
                             continue
-                        if not same(arr.dtype, declared):
+                        if not same(arr.dtype, declared, label):
                             violations.append(Violation("%s has dtype %s but channel.dtype is %s (raw type %#x, scale %s, %s, %d values)" % (
                                 label, arr.dtype, declared, ty, sk, "lazy" if lazy else "eager", len(arr)), dict(info, read=label)))
                         if label in ("[:]", "read_data()", ".data") and len(arr) != len(ch):
@@ -274,6 +278,6 @@ def replay(ctx, path):
     nptdms = ctx.nptdms()
     f = (nptdms.TdmsFile.open if rp.get("lazy") else nptdms.TdmsFile.read)(io.BytesIO(bytes.fromhex(rp["file"])))
     ch = f["g"]["c"]
-    bad = [(l, a.dtype) for l, a in reads_of(ch, rp.get("lazy"), len(ch)) if isinstance(a, np.ndarray) and not same(a.dtype, ch.dtype)]
+    bad = [(l, a.dtype) for l, a in reads_of(ch, rp.get("lazy"), len(ch)) if isinstance(a, np.ndarray) and not same(a.dtype, ch.dtype, l)]
     print("replay: channel.dtype=%s; reads with another dtype: %s" % (ch.dtype, bad or "none"))
     return 1 if bad else 0
